@@ -1,7 +1,7 @@
 ---- MODULE Trace_Load ----
 \* TV of the real loader (C09, C13, C14): a batch of recorded Prog.Load runs (loadruns.ndjson). Each record holds the bytes the
 \* source had (a real dump, whole or cut), the loader's events in program order — every read of the source with the number of
-\* bytes it delivered (0 = the end reported), every section event of the hook in prog.go (section number, count) — the label of
+\* bytes it delivered and whether it reported the end (n > 0 with the end: the last bytes together with io.EOF; 0 without: a zero-byte read), every section event of the hook in prog.go (section number, count) — the label of
 \* the returned error ("ok" for nil) and, for an accepted file, the bytes the loaded program dumps to. Judge folds the events
 \* through the L2 machine BclLoad:
 \*   a read must happen exactly when the machine is blocked (the loader never reads earlier than it needs to, never later),
@@ -17,7 +17,9 @@ Fold(s, ei, evs, i) ==
   ELSE LET e == evs[i] IN
     IF e.t = "rd" THEN
       IF ei # Len(s.evs) THEN [s |-> s, ei |-> ei, bad |-> "section-event-missing"]
-      ELSE IF e.n > 0 THEN (IF CanFill(s, e.n) THEN Fold(Run(Fill(s, e.n)), ei, evs, i + 1) ELSE [s |-> s, ei |-> ei, bad |-> "read-not-needed"])
+      ELSE IF e.n > 0 /\ e.b = 0 THEN (IF CanFill(s, e.n) THEN Fold(Run(Fill(s, e.n)), ei, evs, i + 1) ELSE [s |-> s, ei |-> ei, bad |-> "read-not-needed"])
+      ELSE IF e.n > 0 THEN (IF CanFillLast(s, e.n) THEN Fold(Run(FillLast(s, e.n)), ei, evs, i + 1) ELSE [s |-> s, ei |-> ei, bad |-> "read-not-needed"])
+      ELSE IF e.b = 0 THEN (IF CanZero(s) THEN Fold(s, ei, evs, i + 1) ELSE [s |-> s, ei |-> ei, bad |-> "read-not-needed"])
       ELSE (IF CanEof(s) THEN Fold(Run(FillEof(s)), ei, evs, i + 1) ELSE [s |-> s, ei |-> ei, bad |-> "end-not-needed"])
     ELSE IF ei < Len(s.evs) /\ s.evs[ei + 1] = <<e.a, e.b>> THEN Fold(s, ei + 1, evs, i + 1)
     ELSE [s |-> s, ei |-> ei, bad |-> "section-mismatch"]
